@@ -261,6 +261,52 @@ Lemma register_event_taken p pr e s q :
 Proof. intros H. unfold register_event, ahas. rewrite H. reflexivity. Qed.
 
 (* ---------- release: what unregisterProcess leaves behind ---------- *)
+Lemma aget_cdel_eq n p nm : aget N.eq_dec n (cdel n p nm) =
+  match aget N.eq_dec n nm with Some q => if pid_dec q p then None else Some q | None => None end.
+Proof.
+  unfold cdel. destruct (aget N.eq_dec n nm) as [q|] eqn:E; [|exact E].
+  destruct (pid_dec q p); [apply aget_adel_eq | exact E].
+Qed.
+Lemma aget_cdel_neq n n' p nm : n' <> n -> aget N.eq_dec n' (cdel n p nm) = aget N.eq_dec n' nm.
+Proof.
+  intros NE. unfold cdel. destruct (aget N.eq_dec n nm) as [q|]; [|reflexivity].
+  destruct (pid_dec q p); [apply aget_adel_neq, NE | reflexivity].
+Qed.
+
+(* the steps of the termination program of p with record pr *)
+Lemma term_prog_in p pr r :
+  let l := term_prog_of p pr r in
+  In (TDelProc p) l /\ In (TDrain (TPid p) r) l /\ In (TCleanCons p) l /\
+  (forall n, pr_name pr = Some n -> In (TDelName n p) l /\ In (TDrain (TName n me) r) l) /\
+  (forall a, In a (pr_aliases pr) -> In (TDelAlias a) l /\ In (TDrain (TAlias me a) r) l) /\
+  (forall e, In e (pr_events pr) -> In (TDelEvent e) l /\ In (TDrain (TEvent e me) r) l).
+Proof.
+  cbn zeta. unfold term_prog_of. cbn [In]. repeat setoid_rewrite in_app_iff. cbn [In]. repeat setoid_rewrite in_app_iff.
+  split; [left; reflexivity|]. split; [right; right; left; reflexivity|]. split; [right; right; right; left; reflexivity|].
+  split; [|split].
+  - intros n E. rewrite E. cbn [In]. split; [right; left; left; reflexivity | right; right; right; right; left; left; reflexivity].
+  - intros a Ha. split; right; right; right; right; right; left; apply in_flat_map; exists a; (split; [exact Ha|]); cbn; auto.
+  - intros e He. split; right; right; right; right; right; right; apply in_flat_map; exists e; (split; [exact He|]); cbn; auto.
+Qed.
+
+Lemma term_prog_inv p pr r y : In y (term_prog_of p pr r) ->
+  y = TDelProc p \/ y = TDrain (TPid p) r \/ y = TCleanCons p \/
+  (exists n, pr_name pr = Some n /\ (y = TDelName n p \/ y = TDrain (TName n me) r)) \/
+  (exists a, In a (pr_aliases pr) /\ (y = TDelAlias a \/ y = TDrain (TAlias me a) r)) \/
+  (exists e, In e (pr_events pr) /\ (y = TDelEvent e \/ y = TDrain (TEvent e me) r)).
+Proof.
+  unfold term_prog_of. intros HI. cbn [In] in HI. rewrite in_app_iff in HI. cbn [In] in HI. rewrite !in_app_iff in HI.
+  destruct HI as [H|[H|[H|[H|[H|[H|H]]]]]]; auto.
+  - right; right; right; left. destruct (pr_name pr) as [n|]; [|destruct H]. exists n. split; [reflexivity|].
+    destruct H as [H|[]]. left; auto.
+  - right; right; right; left. destruct (pr_name pr) as [n|]; [|destruct H]. exists n. split; [reflexivity|].
+    destruct H as [H|[]]. right; auto.
+  - right; right; right; right; left. apply in_flat_map in H. destruct H as (a & Ha & H). exists a. split; [exact Ha|].
+    cbn in H. destruct H as [H|[H|[]]]; auto.
+  - right; right; right; right; right. apply in_flat_map in H. destruct H as (e & He & H). exists e. split; [exact He|].
+    cbn in H. destruct H as [H|[H|[]]]; auto.
+Qed.
+
 Lemma tsteps_rels l : forall s k, idx_ok (s_tm s) -> In k (rels (s_tm (tsteps l s))) ->
   In k (rels (s_tm s)) /\ (forall t r, In (TDrain t r) l -> kt k <> t) /\ (forall q, In (TCleanCons q) l -> kc k <> q).
 Proof.
@@ -288,15 +334,13 @@ Theorem terminate_release_relations p pr r s k :
   (forall e, In e (pr_events pr) -> kt k <> TEvent e me).
 Proof.
   intros OK E HI. unfold terminate, term_prog in HI. rewrite E in HI.
-  apply tsteps_rels in HI; [|exact OK]. destruct HI as (H1 & H2 & H3). unfold term_prog_of in *.
-  split; [exact H1|]. split; [apply H3; right; right; left; reflexivity|].
-  split; [apply (H2 (TPid p) r); right; left; reflexivity|].
+  apply tsteps_rels in HI; [|exact OK]. destruct HI as (H1 & H2 & H3).
+  destruct (term_prog_in p pr r) as (_ & I2 & I3 & I4 & I5 & I6).
+  split; [exact H1|]. split; [apply H3, I3|]. split; [apply (H2 _ r), I2|].
   split; [|split].
-  - intros n En. apply (H2 (TName n me) r). right. right. right. apply in_or_app. left. rewrite En. right. left. reflexivity.
-  - intros a Ha. apply (H2 (TAlias me a) r). right. right. right. apply in_or_app. right. apply in_or_app. left.
-    apply in_flat_map. exists a. split; [exact Ha|]. right. left. reflexivity.
-  - intros e He. apply (H2 (TEvent e me) r). right. right. right. apply in_or_app. right. apply in_or_app. right.
-    apply in_flat_map. exists e. split; [exact He|]. right. left. reflexivity.
+  - intros n En. apply (H2 _ r). apply (I4 n En).
+  - intros a Ha. apply (H2 _ r). apply (I5 a Ha).
+  - intros e He. apply (H2 _ r). apply (I6 e He).
 Qed.
 
 (* tables only shrink along the termination program, and the deleted keys are gone *)
@@ -309,9 +353,41 @@ Proof.
   destruct y; cbn [tstep_exec]; try (repeat split; intros; assumption).
   - repeat split; intros; try assumption. cbn. destruct (pid_dec q p) as [->|D]; [apply aget_adel_eq | rewrite aget_adel_neq by exact D; assumption].
   - destruct (drain_frame t r s) as (A & B & C & D & _). rewrite A, B, C, D. repeat split; intros; assumption.
-  - repeat split; intros; try assumption. cbn. destruct (N.eq_dec n0 n) as [->|D]; [apply aget_adel_eq | rewrite aget_adel_neq by exact D; assumption].
+  - repeat split; intros; try assumption. cbn. destruct (N.eq_dec n0 n) as [->|D]; [rewrite aget_cdel_eq, H; reflexivity | rewrite aget_cdel_neq by exact D; assumption].
   - repeat split; intros; try assumption. cbn. destruct (N.eq_dec a0 a) as [->|D]; [apply aget_adel_eq | rewrite aget_adel_neq by exact D; assumption].
   - repeat split; intros; try assumption. cbn. destruct (N.eq_dec e0 e) as [->|D]; [apply aget_adel_eq | rewrite aget_adel_neq by exact D; assumption].
+Qed.
+
+(* an entry present afterwards was present before, with the same value *)
+Lemma tstep_sub y s :
+  (forall q v, aget pid_dec q (s_procs (tstep_exec y s)) = Some v -> aget pid_dec q (s_procs s) = Some v) /\
+  (forall n v, aget N.eq_dec n (s_names (tstep_exec y s)) = Some v -> aget N.eq_dec n (s_names s) = Some v) /\
+  (forall a v, aget N.eq_dec a (s_aliases (tstep_exec y s)) = Some v -> aget N.eq_dec a (s_aliases s) = Some v) /\
+  (forall e v, aget N.eq_dec e (s_events (tstep_exec y s)) = Some v -> aget N.eq_dec e (s_events s) = Some v).
+Proof.
+  destruct y; cbn [tstep_exec]; try (repeat split; intros; assumption).
+  - repeat split; intros ? ? H; try assumption. cbn in H. destruct (pid_dec q p) as [->|D]; [rewrite aget_adel_eq in H; discriminate | rewrite aget_adel_neq in H by exact D; assumption].
+  - destruct (drain_frame t r s) as (A & B & C & D & _). rewrite A, B, C, D. repeat split; intros; assumption.
+  - repeat split; intros ? ? H; try assumption. cbn in H. destruct (N.eq_dec n0 n) as [->|D].
+    + rewrite aget_cdel_eq in H. destruct (aget N.eq_dec n (s_names s)) as [q|]; [|discriminate]. destruct (pid_dec q p); [discriminate | exact H].
+    + rewrite aget_cdel_neq in H by exact D. assumption.
+  - repeat split; intros ? ? H; try assumption. cbn in H. destruct (N.eq_dec a0 a) as [->|D]; [rewrite aget_adel_eq in H; discriminate | rewrite aget_adel_neq in H by exact D; assumption].
+  - repeat split; intros ? ? H; try assumption. cbn in H. destruct (N.eq_dec e0 e) as [->|D]; [rewrite aget_adel_eq in H; discriminate | rewrite aget_adel_neq in H by exact D; assumption].
+Qed.
+
+(* an entry whose key no step deletes is untouched *)
+Lemma tstep_kept y s :
+  (forall q, y <> TDelProc q -> aget pid_dec q (s_procs (tstep_exec y s)) = aget pid_dec q (s_procs s)) /\
+  (forall n, (forall p, y <> TDelName n p) -> aget N.eq_dec n (s_names (tstep_exec y s)) = aget N.eq_dec n (s_names s)) /\
+  (forall a, y <> TDelAlias a -> aget N.eq_dec a (s_aliases (tstep_exec y s)) = aget N.eq_dec a (s_aliases s)) /\
+  (forall e, y <> TDelEvent e -> aget N.eq_dec e (s_events (tstep_exec y s)) = aget N.eq_dec e (s_events s)).
+Proof.
+  destruct y; cbn [tstep_exec]; try (repeat split; intros; reflexivity).
+  - repeat split; intros; try reflexivity. cbn. apply aget_adel_neq. congruence.
+  - destruct (drain_frame t r s) as (A & B & C & D & _). rewrite A, B, C, D. repeat split; intros; reflexivity.
+  - repeat split; intros; try reflexivity. cbn. apply aget_cdel_neq. intros ->. apply (H p). reflexivity.
+  - repeat split; intros; try reflexivity. cbn. apply aget_adel_neq. congruence.
+  - repeat split; intros; try reflexivity. cbn. apply aget_adel_neq. congruence.
 Qed.
 
 Lemma tsteps_cons y l s : tsteps (y :: l) s = tsteps l (tstep_exec y s). Proof. reflexivity. Qed.
@@ -328,18 +404,47 @@ Proof.
   destruct (tstep_tables y s) as (A' & B' & C' & D'). repeat split; intros; auto.
 Qed.
 
+Lemma tsteps_sub l : forall s,
+  (forall q v, aget pid_dec q (s_procs (tsteps l s)) = Some v -> aget pid_dec q (s_procs s) = Some v) /\
+  (forall n v, aget N.eq_dec n (s_names (tsteps l s)) = Some v -> aget N.eq_dec n (s_names s) = Some v) /\
+  (forall a v, aget N.eq_dec a (s_aliases (tsteps l s)) = Some v -> aget N.eq_dec a (s_aliases s) = Some v) /\
+  (forall e v, aget N.eq_dec e (s_events (tsteps l s)) = Some v -> aget N.eq_dec e (s_events s) = Some v).
+Proof.
+  induction l as [|y l IH]; intros s; [rewrite tsteps_nil; repeat split; intros; assumption|].
+  rewrite tsteps_cons. destruct (IH (tstep_exec y s)) as (A & B & C & D).
+  destruct (tstep_sub y s) as (A' & B' & C' & D'). repeat split; intros; auto.
+Qed.
+
+Lemma tsteps_kept l : forall s,
+  (forall q, ~ In (TDelProc q) l -> aget pid_dec q (s_procs (tsteps l s)) = aget pid_dec q (s_procs s)) /\
+  (forall n, (forall p, ~ In (TDelName n p) l) -> aget N.eq_dec n (s_names (tsteps l s)) = aget N.eq_dec n (s_names s)) /\
+  (forall a, ~ In (TDelAlias a) l -> aget N.eq_dec a (s_aliases (tsteps l s)) = aget N.eq_dec a (s_aliases s)) /\
+  (forall e, ~ In (TDelEvent e) l -> aget N.eq_dec e (s_events (tsteps l s)) = aget N.eq_dec e (s_events s)).
+Proof.
+  induction l as [|y l IH]; intros s; [rewrite tsteps_nil; repeat split; intros; reflexivity|].
+  rewrite tsteps_cons. destruct (IH (tstep_exec y s)) as (A & B & C & D).
+  destruct (tstep_kept y s) as (A' & B' & C' & D'). repeat split.
+  - intros q H. rewrite A by (intros X; apply H; right; exact X). apply A'. intros ->. apply H. left; reflexivity.
+  - intros n H. rewrite B by (intros p X; apply (H p); right; exact X). apply B'. intros p ->. apply (H p). left; reflexivity.
+  - intros a H. rewrite C by (intros X; apply H; right; exact X). apply C'. intros ->. apply H. left; reflexivity.
+  - intros e H. rewrite D by (intros X; apply H; right; exact X). apply D'. intros ->. apply H. left; reflexivity.
+Qed.
+
+(* CompareAndDelete(n, p): afterwards n does not resolve to p (it may resolve to somebody else) *)
 Lemma tsteps_deleted l : forall s,
   (forall q, In (TDelProc q) l -> aget pid_dec q (s_procs (tsteps l s)) = None) /\
-  (forall n, In (TDelName n) l -> aget N.eq_dec n (s_names (tsteps l s)) = None) /\
+  (forall n p, In (TDelName n p) l -> aget N.eq_dec n (s_names (tsteps l s)) <> Some p) /\
   (forall a, In (TDelAlias a) l -> aget N.eq_dec a (s_aliases (tsteps l s)) = None) /\
   (forall e, In (TDelEvent e) l -> aget N.eq_dec e (s_events (tsteps l s)) = None).
 Proof.
   induction l as [|y l IH]; intros s; [repeat split; intros; contradiction|].
   rewrite tsteps_cons.
   destruct (IH (tstep_exec y s)) as (A & B & C & D). destruct (tsteps_keep l (tstep_exec y s)) as (A' & B' & C' & D').
+  destruct (tsteps_sub l (tstep_exec y s)) as (_ & S2 & _ & _).
   repeat split.
   - intros q [E|HI]; [subst y; apply A'; cbn; apply aget_adel_eq | apply A, HI].
-  - intros n [E|HI]; [subst y; apply B'; cbn; apply aget_adel_eq | apply B, HI].
+  - intros n p [E|HI]; [subst y | apply B, HI]. intros H. apply S2 in H. cbn in H. rewrite aget_cdel_eq in H.
+    destruct (aget N.eq_dec n (s_names s)) as [q|]; [|discriminate]. destruct (pid_dec q p); congruence.
   - intros a [E|HI]; [subst y; apply C'; cbn; apply aget_adel_eq | apply C, HI].
   - intros e [E|HI]; [subst y; apply D'; cbn; apply aget_adel_eq | apply D, HI].
 Qed.
@@ -348,16 +453,15 @@ Theorem terminate_release_tables p pr r s :
   aget pid_dec p (s_procs s) = Some pr ->
   let s' := terminate p r s in
   aget pid_dec p (s_procs s') = None /\
-  (forall n, pr_name pr = Some n -> aget N.eq_dec n (s_names s') = None) /\
+  (forall n, pr_name pr = Some n -> aget N.eq_dec n (s_names s') <> Some p) /\
   (forall a, In a (pr_aliases pr) -> aget N.eq_dec a (s_aliases s') = None) /\
   (forall e, In e (pr_events pr) -> aget N.eq_dec e (s_events s') = None).
 Proof.
   intros E. cbn zeta. unfold terminate, term_prog. rewrite E.
-  destruct (tsteps_deleted (term_prog_of p pr r) s) as (A & B & C & D). unfold term_prog_of in *.
-  split; [apply A; left; reflexivity|]. split; [|split].
-  - intros n En. apply B. right. right. right. apply in_or_app. left. rewrite En. left. reflexivity.
-  - intros a Ha. apply C. right. right. right. apply in_or_app. right. apply in_or_app. left.
-    apply in_flat_map. exists a. split; [exact Ha | left; reflexivity].
-  - intros e He. apply D. right. right. right. apply in_or_app. right. apply in_or_app. right.
-    apply in_flat_map. exists e. split; [exact He | left; reflexivity].
+  destruct (tsteps_deleted (term_prog_of p pr r) s) as (A & B & C & D).
+  destruct (term_prog_in p pr r) as (I1 & _ & _ & I4 & I5 & I6).
+  split; [apply A, I1|]. split; [|split].
+  - intros n En. apply B, (I4 n En).
+  - intros a Ha. apply C, (I5 a Ha).
+  - intros e He. apply D, (I6 e He).
 Qed.
